@@ -12,6 +12,9 @@ structure OpSpec (α : Type) where
   pre : Cfg → List α → Prop
   spec : List α → List α
   strong : Bool
+  /-- the operation's theorem is only available for element types that are not trivially copyable (the two `assign` forms:
+      their trivially-copyable branch constructs over live objects, which the slot model only tolerates without throws) -/
+  nonTC : Bool := false
 
 /-- what a history carries from step to step besides the container itself -/
 structure HInv (m : Mem α) : Prop where
@@ -26,7 +29,7 @@ def StepPost (cfg : Cfg) (Ok : VB → Prop) (c : Nat) (m : Mem α) (xs : List α
                 ∧ HInv m' ∧ m'.cat = m.cat
 
 def OpOK (cfg : Cfg) (Ok : VB → Prop) (o : OpSpec α) : Prop :=
-  ∀ (m : Mem α) (c : Nat) (xs : List α) (w : VB), VRepW cfg Ok c m xs w → HInv m → o.pre cfg xs →
+  ∀ (m : Mem α) (c : Nat) (xs : List α) (w : VB), VRepW cfg Ok c m xs w → HInv m → o.pre cfg xs → (o.nonTC = true → m.cat ≠ .tc) →
     Post (o.run cfg c) m (StepPost cfg Ok c m xs o)
 
 /-- run a history; a C++ exception ends the operation that threw it, not the history -/
@@ -50,18 +53,18 @@ def Safe (cfg : Cfg) : List (OpSpec α) → List α → Prop
   | o :: rest, xs => o.pre cfg xs ∧ Safe cfg rest (o.spec xs) ∧ (∀ xs'', (o.strong = true → xs'' = xs) → Safe cfg rest xs'')
 
 theorem hist_post (cfg : Cfg) (Ok : VB → Prop) (c : Nat) : ∀ (ops : List (OpSpec α)) (m : Mem α) (xs : List α),
-    (∀ o ∈ ops, OpOK cfg Ok o) → VRep cfg Ok c m xs → HInv m → Safe cfg ops xs →
+    (∀ o ∈ ops, OpOK cfg Ok o) → VRep cfg Ok c m xs → HInv m → Safe cfg ops xs → (∀ o ∈ ops, o.nonTC = true → m.cat ≠ .tc) →
     Post (runHist cfg c ops) m (fun res m' => res = .ok () ∧ ∃ ys, Trace cfg ops xs ys ∧ VRep cfg Ok c m' ys ∧ HInv m' ∧ m'.cat = m.cat) := by
   intro ops
   induction ops with
   | nil =>
-    intro m xs _ hv hi _
+    intro m xs _ hv hi _ _
     exact ⟨rfl, xs, Trace.nil xs, hv, hi, rfl⟩
   | cons o rest ih =>
-    intro m xs hok hv hi hs
+    intro m xs hok hv hi hs hcat
     obtain ⟨w, hw⟩ := hv
     obtain ⟨hpre, hsok, hsexc⟩ := hs
-    have hstep := hok o (by simp) m c xs w hw hi hpre
+    have hstep := hok o (by simp) m c xs w hw hi hpre (hcat o (by simp))
     simp only [runHist]
     refine Post.bind (Q1 := fun res m1 => res = .ok () ∧ ∃ xs1, ((xs1 = o.spec xs) ∨ (o.strong = true → xs1 = xs)) ∧
         VRep cfg Ok c m1 xs1 ∧ HInv m1 ∧ m1.cat = m.cat ∧ Safe cfg rest xs1 ∧ (∀ ys, Trace cfg rest xs1 ys → Trace cfg (o :: rest) xs ys))
@@ -76,7 +79,7 @@ theorem hist_post (cfg : Cfg) (Ok : VB → Prop) (c : Nat) : ∀ (ops : List (Op
       · injection he with he; subst he
         exact ⟨rfl, xs'', Or.inr hst, hv1, hi1, hc1, hsexc xs'' hst, fun ys ht => Trace.thrown o rest xs xs'' ys hst ht⟩
     · rintro _ m1 ⟨_, xs1, _, hv1, hi1, hc1, hs1, htr⟩
-      refine Post.mono (ih m1 xs1 (fun o' ho' => hok o' (by simp [ho'])) hv1 hi1 hs1) ?_
+      refine Post.mono (ih m1 xs1 (fun o' ho' => hok o' (by simp [ho'])) hv1 hi1 hs1 (fun o' ho' hn => by rw [hc1]; exact hcat o' (by simp [ho']) hn)) ?_
       rintro res m2 ⟨hr, ys, ht, hv2, hi2, hc2⟩
       exact ⟨hr, ys, htr ys ht, hv2, hi2, hc2.trans hc1⟩
     · rintro e m1 ⟨he, _⟩; cases he
